@@ -400,6 +400,20 @@ fn run(case: &Value) -> Value {
             let lib = lib_of(&case["lib"]);
             json!({"w": jw(&do_write(&lib), true)})
         }
+        // library -> GdsLibrary::save(file) -> the bytes found in the file afterwards (C02: what is on disk after a save is the stream).
+        // `old_len` > 0: the file exists already and holds that many bytes of an older, longer content; 0: it does not exist.
+        "save" => {
+            let lib = lib_of(&case["lib"]);
+            let path = scratch_path();
+            let old_len = case["old_len"].as_u64().unwrap_or(0) as usize;
+            let _ = std::fs::remove_file(&path);
+            if old_len > 0 {
+                std::fs::write(&path, vec![0xEEu8; old_len]).expect("harness: write scratch file");
+            }
+            let w = do_save(&lib, &path);
+            let _ = std::fs::remove_file(&path);
+            json!({"w": jw(&w, true)})
+        }
         // library -> bytes -> library
         "write_read" => {
             let lib = lib_of(&case["lib"]);
